@@ -625,6 +625,403 @@ theorem viewEdges_sound (wf : SpecWF spec) (D : DenOK posTab spec (encOf spec la
     exact main o (2 * spec.baseSeqs.length + 2 * k) x (mem_supSeqs (mem_enum hko).1).1 h0 h1 r0 r1
       (List.mem_range.1 hx)
 
+/-- the region an `equal` entry holds for an item that resolves -/
+theorem equal_region_mem (its : List ItemRef) {i : ItemRef} (hi : i ∈ its) (hr : (spec.findSeq i.name).isSome = true) :
+    nucsOfItem spec i ∈ its.filterMap (fun i =>
+      (spec.findSeq i.name).map (fun o => nucsOfBases (basesOfView o i.rev))) := by
+  rw [List.mem_filterMap]
+  refine ⟨i, hi, ?_⟩
+  obtain ⟨o, ho⟩ := Option.isSome_iff_exists.1 hr
+  simp [nucsOfItem, ho, viewNucs]
+
+/-- "equality constraints" join nodes whose nucleotides an `equal` line identifies -/
+theorem equalEdges_sound (wf : SpecWF spec) (D : DenOK posTab spec (encOf spec lay)) {ee : List (Nat × Nat)}
+    (h : equalEdges spec (encOf spec lay) = .ok ee) :
+    ∀ e ∈ ee, EdgeSound (Pil.denote spec) (den posTab spec (encOf spec lay)) false e := by
+  intro e he
+  unfold equalEdges at h
+  obtain ⟨its, hits, cs, hcs, hecs⟩ := (flatME_mem h e).1 he
+  cases its with
+  | nil => simp at hcs
+  | cons first rest =>
+    simp only at hcs
+    obtain ⟨it, hit, cs', hcs', hecs'⟩ := (flatME_mem hcs e).1 hecs
+    by_cases hlen : (lenOf spec it != lenOf spec first) = true
+    · simp [hlen] at hcs'
+    · simp only [hlen, Bool.false_eq_true, if_false] at hcs'
+      have hlen' : lenOf spec it = lenOf spec first := by simpa using hlen
+      obtain ⟨x, hx, hxe⟩ := mapME_mem hcs' hecs'
+      have hxl : x < lenOf spec it := List.mem_range.1 hx
+      cases ha : sqOf spec (encOf spec lay) first x with
+      | error er => simp [ha] at hxe
+      | ok a =>
+        cases hb : sqOf spec (encOf spec lay) it x with
+        | error er => simp [ha, hb] at hxe
+        | ok b =>
+          simp only [ha, hb, Except.ok.injEq] at hxe
+          subst hxe
+          obtain ⟨na, hna, rfl⟩ := sqOf_ok ha
+          obtain ⟨nb, hnb, rfl⟩ := sqOf_ok hb
+          obtain ⟨m, hm⟩ := getElem?_some_of_lt (l := nucsOfItem spec first) (i := x)
+            (by rw [nucsOfItem_length wf]; omega)
+          obtain ⟨n, hn⟩ := getElem?_some_of_lt (l := nucsOfItem spec it) (i := x)
+            (by rw [nucsOfItem_length wf]; exact hxl)
+          refine ⟨m, n, ?_, ?_, ?_⟩
+          · simp only; rw [den_item wf D hna (by omega)]; exact hm
+          · simp only; rw [den_item wf D hnb hxl]; exact hn
+          · apply nucReach_of_equalLink
+            apply List.mem_append_left
+            simp only [equalLinks, Pil.denote, List.mem_flatMap, List.mem_map]
+            have hres := wf.equal _ hits
+            refine ⟨_, ⟨first :: rest, hits, rfl⟩, nucsOfItem spec first,
+              equal_region_mem _ List.mem_cons_self (hres first List.mem_cons_self),
+              nucsOfItem spec it, equal_region_mem _ (List.mem_cons_of_mem _ hit) (hres it (List.mem_cons_of_mem _ hit)), ?_⟩
+            simp only [regionLinks, List.mem_map]
+            exact ⟨(m, n), getElem?_mem_zip hm hn, rfl⟩
+
 end Groups
+
+/-! ### strand layout: strands and bonds -/
+
+theorem posTabStrand_mem {spec : Spec} {k : Nat} {o : StrandObj} (hko : (k, o) ∈ enum spec.strands) {y : Nat}
+    (hy : y < o.len) {m : Nuc} (hm : (nucsOfBases o.bases)[y]? = some m) : (startS spec k + y, m) ∈ posTabStrand spec := by
+  unfold posTabStrand
+  rw [List.mem_flatMap]
+  refine ⟨(k, o), hko, ?_⟩
+  rw [List.mem_map]
+  refine ⟨y, List.mem_range.2 hy, ?_⟩
+  simp [List.getD_eq_getElem?_getD, hm]
+
+/-- "strand constraints" join a layout position and the sequence node carrying the same nucleotide -/
+theorem strandEdges_sound_strand {spec : Spec} (wf : SpecWF spec)
+    (D : DenOK (posTabStrand spec) spec (encOf spec (layStrand spec))) {te : List (Nat × Nat)}
+    (h : strandEdges spec (layStrand spec) (encOf spec (layStrand spec)) = .ok te) :
+    ∀ e ∈ te, EdgeSound (Pil.denote spec) (den (posTabStrand spec) spec (encOf spec (layStrand spec))) false e := by
+  intro e he
+  unfold strandEdges at h
+  obtain ⟨⟨k, o⟩, hko, cs, hcs, hecs⟩ := (flatME_mem h e).1 he
+  obtain ⟨⟨off, it⟩, hoff, cs', hcs', hecs'⟩ := (flatME_mem hcs e).1 hecs
+  obtain ⟨x, hx, hxe⟩ := mapME_mem hcs' hecs'
+  simp only at hxe
+  have hxl : x < lenOf spec it := List.mem_range.1 hx
+  have hmem : o ∈ spec.strands := (mem_enum hko).1
+  have ok := wf.strand o hmem
+  obtain ⟨hidx, hlt⟩ := items_index wf ok hoff hxl
+  have hlen : off + x < o.len := by rw [← wf.strandLen o hmem]; exact hlt
+  rw [getIndexStrand_strand spec (mem_enum_lt hko) hlen] at hxe
+  cases hb : sqOf spec (encOf spec (layStrand spec)) it x with
+  | error er => simp [hb] at hxe
+  | ok b =>
+    simp only [hb, Except.ok.injEq] at hxe
+    subst hxe
+    obtain ⟨num, hn, rfl⟩ := sqOf_ok hb
+    obtain ⟨m, hm⟩ := getElem?_some_of_lt hlt
+    refine ⟨m, m, ?_, ?_, NucReach.refl _ m⟩
+    · simp only
+      exact den_pos D (posTabStrand_mem hko hlen hm)
+    · simp only
+      rw [den_item wf D hn hxl, ← hidx]; exact hm
+
+theorem mem_enum_of_getElem? {α : Type} {l : List α} {k : Nat} {a : α} (h : l[k]? = some a) : (k, a) ∈ enum l := by
+  unfold enum
+  obtain ⟨hk, he⟩ := List.getElem?_eq_some_iff.1 h
+  have : ((List.range l.length).zip l)[k]'(by simp [List.length_zip]; exact hk) = (k, a) := by
+    rw [List.getElem_zip]; simp [he]
+  exact this ▸ List.getElem_mem _
+
+/-- `struct.strands`: every entry is a strand of the specification with its number -/
+theorem structStrands_mem {spec : Spec} (wf : SpecWF spec) {so : StructObj} {q : Nat × StrandObj}
+    (h : q ∈ structStrands spec so) : q ∈ enum spec.strands := by
+  unfold structStrands at h
+  obtain ⟨n, _, hq⟩ := List.mem_filterMap.1 h
+  cases hi : strandIdx spec n with
+  | none => simp [hi] at hq
+  | some k =>
+    cases hf : spec.findStrand n with
+    | none => simp [hi, hf] at hq
+    | some o =>
+      simp only [hi, hf, Option.some.injEq] at hq
+      subst hq
+      obtain ⟨o', hk, hp⟩ := findIdx?_spec hi
+      have hname : o'.name = n := by simpa using hp
+      have := wf.strandFind o' (List.mem_of_getElem? hk)
+      rw [hname, hf] at this
+      cases this
+      exact mem_enum_of_getElem? hk
+
+/-- `get_index` in the strand layout lands in the strand that carries the nucleotide -/
+theorem getIndexS_spec {spec : Spec} (l : List (Nat × StrandObj)) (hl : ∀ q ∈ l, q ∈ enum spec.strands)
+    (hlen : ∀ q ∈ l, (nucsOfBases q.2.bases).length = q.2.len) {x a : Nat}
+    (h : getIndexS (layStrand spec) l x = .ok a) :
+    ∃ q ∈ l, ∃ y, y < q.2.len ∧ a = startS spec q.1 + y ∧
+      (l.flatMap (fun q => nucsOfBases q.2.bases))[x]? = (nucsOfBases q.2.bases)[y]? := by
+  induction l generalizing x with
+  | nil => simp [getIndexS] at h
+  | cons q l ih =>
+    obtain ⟨k, o⟩ := q
+    simp only [getIndexS] at h
+    have hql := hlen (k, o) List.mem_cons_self
+    simp only at hql
+    by_cases hge : x ≥ o.len
+    · simp only [hge, if_true] at h
+      obtain ⟨q', hq', y, hy, ha, hidx⟩ := ih (fun q hq => hl q (List.mem_cons_of_mem _ hq))
+        (fun q hq => hlen q (List.mem_cons_of_mem _ hq)) h
+      refine ⟨q', List.mem_cons_of_mem _ hq', y, hy, ha, ?_⟩
+      simp only [List.flatMap_cons]
+      rw [List.getElem?_append_right (by omega), hql]
+      exact hidx
+    · simp only [hge, if_false] at h
+      have hx : x < o.len := by omega
+      rw [getIndexStrand_strand spec (mem_enum_lt (hl (k, o) List.mem_cons_self)) hx] at h
+      simp only [Except.ok.injEq] at h
+      refine ⟨(k, o), List.mem_cons_self, x, hx, h.symm, ?_⟩
+      simp only [List.flatMap_cons]
+      rw [List.getElem?_append_left (by omega)]
+
+/-- the nucleotides of a structure as the design has them are those of `struct.strands` in order -/
+theorem structNucs_denote {spec : Spec} (wf : SpecWF spec) {so : StructObj} (hso : so ∈ spec.structs) (opt : Opt) :
+    structNucs (Pil.denote spec) ⟨so.name, so.strands, so.struct, opt⟩ =
+      (structStrands spec so).flatMap (fun q => nucsOfBases q.2.bases) := by
+  have hres := (wf.struct so hso).1
+  unfold structNucs structStrands
+  simp only
+  generalize so.strands = names at hres
+  induction names with
+  | nil => rfl
+  | cons n names ih =>
+    obtain ⟨o, ho⟩ := Option.isSome_iff_exists.1 (hres n List.mem_cons_self)
+    have hidx : ∃ k, strandIdx spec n = some k := by
+      cases hi : strandIdx spec n with
+      | some k => exact ⟨k, rfl⟩
+      | none =>
+        have := List.findIdx?_eq_none_iff.1 hi o (findStrand_mem ho).1
+        simp [(findStrand_mem ho).2] at this
+    obtain ⟨k, hk⟩ := hidx
+    have hsn : strandNucs (Pil.denote spec) n = nucsOfBases o.bases := by
+      unfold strandNucs Pil.denote
+      simp only
+      rw [List.find?_map]
+      have : (spec.strands.find? ((fun (x : String × Bool × List Nuc) => x.1 == n) ∘
+          fun o => (o.name, o.dummy, nucsOfBases o.bases))) = spec.findStrand n := rfl
+      rw [this, ho]
+      rfl
+    simp only [List.flatMap_cons, List.filterMap_cons, hk, ho, hsn]
+    rw [ih (fun n' hn' => hres n' (List.mem_cons_of_mem _ hn'))]
+
+theorem getBondsAux_pairs (s : List Char) (pos : Nat) (stk : List Nat) (acc bs : List (Nat × Nat))
+    (h : getBondsAux s pos stk acc = .ok bs) : bs = acc.reverse ++ pairsAux s pos stk := by
+  induction s generalizing pos stk acc with
+  | nil => simp [getBondsAux] at h; simp [pairsAux, h]
+  | cons c r ih =>
+    unfold getBondsAux at h
+    split at h
+    · cases ‹(c :: r) = []›
+    · rename_i r' pos' stk' acc' heq
+      cases heq
+      have := ih _ _ _ h
+      simp [pairsAux, this]
+    · rename_i r' pos' stk' acc' heq
+      cases heq
+      have := ih _ _ _ h
+      simp [pairsAux, this]
+    · rename_i r' pos' stk' acc' heq
+      cases heq
+      split at h
+      · cases h
+      · rename_i o stk''
+        have := ih _ _ _ h
+        simp [pairsAux, this]
+    · rename_i r' pos' stk' acc' heq
+      cases heq
+      have := ih _ _ _ h
+      simp [pairsAux, this]
+    · cases h
+
+theorem getBonds_pairs {s : List Char} {bs : List (Nat × Nat)} (h : getBonds s = .ok bs) : bs = pairs s := by
+  have := getBondsAux_pairs s 0 [] [] bs h
+  simpa [pairs] using this
+
+/-- "structural constraints" join the positions of a base pair -/
+theorem bondEdges_sound_strand {spec : Spec} (wf : SpecWF spec)
+    (D : DenOK (posTabStrand spec) spec (encOf spec (layStrand spec))) {be : List (Nat × Nat)}
+    (h : bondEdges .strand spec (layStrand spec) = .ok be) :
+    ∀ e ∈ be, EdgeSound (Pil.denote spec) (den (posTabStrand spec) spec (encOf spec (layStrand spec))) true e := by
+  intro e he
+  unfold bondEdges at h
+  obtain ⟨⟨sidx, so⟩, hso, cs, hcs, hecs⟩ := (flatME_mem h e).1 he
+  obtain ⟨⟨x, y⟩, hxy, hxe⟩ := mapME_mem hcs hecs
+  simp only at hxe
+  have hsom : so ∈ spec.structs := (mem_enum hso).1
+  cases ha : getIndex .strand spec (layStrand spec) sidx so x with
+  | error er => simp [ha] at hxe
+  | ok a =>
+    cases hb : getIndex .strand spec (layStrand spec) sidx so y with
+    | error er => simp [ha, hb] at hxe
+    | ok b =>
+      simp only [ha, hb, Except.ok.injEq] at hxe
+      subst hxe
+      have hl : ∀ q ∈ structStrands spec so, q ∈ enum spec.strands := fun q hq => structStrands_mem wf hq
+      have hlen : ∀ q ∈ structStrands spec so, (nucsOfBases q.2.bases).length = q.2.len :=
+        fun q hq => wf.strandLen q.2 (mem_enum (hl q hq)).1
+      have unf : ∀ z c, getIndex .strand spec (layStrand spec) sidx so z = .ok c →
+          getIndexS (layStrand spec) (structStrands spec so) z = .ok c := by
+        intro z c hz
+        unfold getIndex at hz
+        split at hz
+        · exact hz
+        · cases hz
+      obtain ⟨q1, hq1, y1, hy1, rfl, hi1⟩ := getIndexS_spec _ hl hlen (unf x a ha)
+      obtain ⟨q2, hq2, y2, hy2, rfl, hi2⟩ := getIndexS_spec _ hl hlen (unf y b hb)
+      obtain ⟨m, hm⟩ := getElem?_some_of_lt (l := nucsOfBases q1.2.bases) (i := y1) (by rw [hlen q1 hq1]; exact hy1)
+      obtain ⟨n, hn⟩ := getElem?_some_of_lt (l := nucsOfBases q2.2.bases) (i := y2) (by rw [hlen q2 hq2]; exact hy2)
+      refine ⟨m, n, ?_, ?_, ?_⟩
+      · simp only
+        exact den_pos D (posTabStrand_mem (hl q1 hq1) hy1 hm)
+      · simp only
+        exact den_pos D (posTabStrand_mem (hl q2 hq2) hy2 hn)
+      · apply nucReach_of_pairLink
+        apply List.mem_append_right
+        simp only [pairLinks, List.mem_flatMap]
+        refine ⟨⟨so.name, so.strands, so.struct, optOfParams so.params⟩, ?_, ?_⟩
+        · simp only [Pil.denote, List.mem_map]
+          exact ⟨so, hsom, rfl⟩
+        · rw [List.mem_filterMap]
+          refine ⟨(x, y), ?_, ?_⟩
+          · rw [← getBonds_pairs (wf.struct so hsom).2]; exact hxy
+          · simp only
+            rw [structNucs_denote wf hsom, hi1, hi2, hm, hn]
+
+/-! ## the strand layout: everything together -/
+
+/-- the denotation used for the strand layout -/
+def denS (spec : Spec) : Nat → Option Nuc := den (posTabStrand spec) spec (encOf spec (layStrand spec))
+
+theorem layOf_strand (spec : Spec) : layOf .strand spec = layStrand spec := rfl
+
+/-- after a successful seeding in the strand layout: distinct keys (hence a well-defined denotation) and every
+    seeded link is sound -/
+theorem seeds_sound_strand {tbl : CodeTable} {spec : Spec} (wf : SpecWF spec) (ok : SpecCodes tbl spec)
+    {s : Seeds} {c : Cons} (hs : seeds .strand spec = .ok s) (hb : build s = .ok c) :
+    DenOK (posTabStrand spec) spec (encOf spec (layStrand spec)) ∧
+    (∀ e ∈ s.eqE, EdgeSound (Pil.denote spec) (denS spec) false e) ∧
+    (∀ e ∈ s.wcE, EdgeSound (Pil.denote spec) (denS spec) true e) := by
+  obtain ⟨li, ce, be, ee, se, te, h1, h2, h3, h4, h5, h6, rfl⟩ := seeds_ok hs
+  rw [layOf_strand] at h1 h2 h3 h4 h5 h6
+  obtain ⟨_, hkeys, hnd, _, _, _⟩ := build_spec (tbl := tbl) hb (seeds_codes ok hs)
+  have hli : li = (enum spec.strands).flatMap (fun (p : Nat × StrandObj) =>
+      (List.range p.2.len).map (fun x => (startS spec p.1 + x, 'N'))) := by
+    have := layoutInits_strand spec
+    rw [h1] at this
+    exact (Except.ok.inj this)
+  have D : DenOK (posTabStrand spec) spec (encOf spec (layStrand spec)) := by
+    constructor
+    rw [posTabStrand_keys, ← hli, ← List.map_append]
+    rw [hkeys] at hnd
+    exact hnd
+  have hce : ce = [] := by
+    unfold copyEdges at h2
+    simp only at h2
+    exact (Except.ok.inj h2).symm
+  refine ⟨D, ?_, ?_⟩
+  · intro e he
+    simp only [List.mem_append] at he
+    rcases he with ((he | he) | he) | he
+    · rw [hce] at he; cases he
+    · exact equalEdges_sound wf D h4 e he
+    · exact supEdges_sound wf D h5 e he
+    · exact strandEdges_sound_strand wf D h6 e he
+  · intro e he
+    simp only [List.mem_append] at he
+    rcases he with he | he
+    · exact bondEdges_sound_strand wf D h3 e he
+    · exact viewEdges_sound wf D e he
+
+/-! ## templates of nodes -/
+
+/-- every `init` of a sequence node: which view, which index, which letter -/
+theorem seqInits_mem {spec : Spec} (wf : SpecWF spec) (e : Enc) {p : Nat × Char} (h : p ∈ seqInits spec e) :
+    ∃ num o x, p.1 = e.sq num x ∧ objOfNum spec num = some o ∧ o ∈ spec.seqs ∧ x < o.len ∧
+      (p.2 = 'N' ∨ (revOfNum num = false ∧ o.isSup = false ∧ o.template[x]? = some p.2)) := by
+  unfold seqInits at h
+  rcases List.mem_append.1 h with h | h
+  · obtain ⟨⟨k, o⟩, hko, h⟩ := List.mem_flatMap.1 h
+    simp only at h
+    obtain ⟨h0, h1, r0, r1⟩ := objOfNum_base hko
+    have hmem := mem_baseSeqs (mem_enum hko).1
+    simp only at hmem
+    have hb := wf.base o hmem.1 hmem.2
+    rcases List.mem_append.1 h with h | h
+    · obtain ⟨⟨x, ch⟩, hxc, rfl⟩ := List.mem_map.1 h
+      have hx : x < o.template.length := mem_enum_lt hxc
+      exact ⟨2 * k, o, x, rfl, h0, hmem.1, by rw [← hb.1]; exact hx, Or.inr ⟨r0, hmem.2, enum_getElem? hxc⟩⟩
+    · obtain ⟨x, hx, rfl⟩ := List.mem_map.1 h
+      exact ⟨2 * k + 1, o, x, rfl, h1, hmem.1, List.mem_range.1 hx, Or.inl rfl⟩
+  · obtain ⟨⟨k, o⟩, hko, h⟩ := List.mem_flatMap.1 h
+    simp only at h
+    obtain ⟨h0, h1, r0, r1⟩ := objOfNum_sup hko
+    have hmem := mem_supSeqs (mem_enum hko).1
+    simp only at hmem
+    rcases List.mem_append.1 h with h | h
+    · obtain ⟨x, hx, rfl⟩ := List.mem_map.1 h
+      exact ⟨_, o, x, rfl, h0, hmem.1, List.mem_range.1 hx, Or.inl rfl⟩
+    · obtain ⟨x, hx, rfl⟩ := List.mem_map.1 h
+      exact ⟨_, o, x, rfl, h1, hmem.1, List.mem_range.1 hx, Or.inl rfl⟩
+
+theorem fwd_getElem? (name : String) (len x : Nat) (hx : x < len) : (fwd name len)[x]? = some ⟨⟨name, x⟩, false⟩ := by
+  unfold fwd
+  rw [List.getElem?_map, List.getElem?_range hx]; rfl
+
+/-- every key of the strand layout denotes a nucleotide, and the template stored with the key allows every base
+    the design allows for that nucleotide -/
+theorem key_den_strand {tbl : CodeTable} {spec : Spec} (wf : SpecWF spec) (ok : SpecCodes tbl spec)
+    (hN : tbl.maskC 'N' = 15) {s : Seeds} {c : Cons} (hs : seeds .strand spec = .ok s) (hb : build s = .ok c)
+    {y : Nat} (hy : y ∈ c.keys) :
+    ∃ n, denS spec y = some n ∧
+      ∀ b, okVar tbl (Pil.denote spec) n.var (flipB b n.comp) → hasB (stMask tbl c.st y) b := by
+  obtain ⟨D, _, _⟩ := seeds_sound_strand wf ok hs hb
+  obtain ⟨li, ce, be, ee, se, te, h1, _, _, _, _, _, rfl⟩ := seeds_ok hs
+  rw [layOf_strand] at h1
+  obtain ⟨_, hkeys, _, hst, _, _⟩ := build_spec (tbl := tbl) hb (seeds_codes ok hs)
+  rw [hkeys] at hy
+  obtain ⟨p, hp, rfl⟩ := List.mem_map.1 hy
+  have hstp : stMask tbl c.st p.1 = tbl.maskC p.2 := by simp [stMask, hst p hp]
+  have hNall : ∀ b, hasB (tbl.maskC 'N') b := fun b => hN ▸ hasB_15 b
+  simp only at hp
+  rcases List.mem_append.1 hp with hp | hp
+  · -- a layout position
+    have hletter := layoutInits_letters h1 p hp
+    have hli := layoutInits_strand spec
+    rw [h1] at hli
+    have hli := Except.ok.inj hli
+    rw [hli] at hp
+    obtain ⟨⟨k, o⟩, hko, hp⟩ := List.mem_flatMap.1 hp
+    obtain ⟨x, hx, rfl⟩ := List.mem_map.1 hp
+    have hxl := List.mem_range.1 hx
+    obtain ⟨m, hm⟩ := getElem?_some_of_lt (l := nucsOfBases o.bases) (i := x)
+      (by rw [wf.strandLen o (mem_enum hko).1]; exact hxl)
+    refine ⟨m, den_pos D (posTabStrand_mem hko hxl hm), fun b _ => ?_⟩
+    rw [hstp]; exact hNall b
+  · obtain ⟨num, o, x, hpx, ho, hmem, hx, hcase⟩ := seqInits_mem wf _ hp
+    obtain ⟨n, hn⟩ := getElem?_some_of_lt (l := viewNucs o (revOfNum num)) (i := x)
+      (by rw [viewNucs_length, wf.seqLen o hmem]; exact hx)
+    have hden : denS spec p.1 = some n := by
+      unfold denS
+      rw [hpx]
+      show den (posTabStrand spec) spec (encOf spec (layStrand spec)) ((encOf spec (layStrand spec)).sq num x) = some n
+      rw [den_sq wf D ho hx hmem]; exact hn
+    refine ⟨n, hden, fun b hb' => ?_⟩
+    rw [hstp]
+    rcases hcase with hc | ⟨hr, hsup, hch⟩
+    · rw [hc]; exact hNall b
+    · rw [hr, (wf.base o hmem hsup).2, fwd_getElem? _ _ _ hx] at hn
+      cases hn
+      simp only [flipB, Bool.false_eq_true, if_false] at hb'
+      have hdom : (o.name, o.template) ∈ (Pil.denote spec).domains := by
+        simp only [Pil.denote, List.mem_map, List.mem_filter]
+        refine ⟨o, ⟨?_, ?_⟩, rfl⟩
+        · unfold Spec.baseSeqs
+          rw [List.mem_filter]; exact ⟨hmem, by simp [hsup]⟩
+        · simp; omega
+      exact hb' (o.name, o.template) hdom rfl p.2 hch
 
 end Pepper.ConstraintGen
